@@ -1062,6 +1062,7 @@ func c14ObjSuffix(c *Ctx) {
 	// must know which of the two it is
 	// a section marker names the section that follows: after ---functions--- definitions are functions, after
 	// ---types--- they are constructors, whatever section the parser was in before
+	c.sharedBitsAccepted("R14.D")
 	r.Rule("R14.S", "in ParseSchema the flag that files a definition under Methods is true after the ---functions--- marker and false after the ---types--- marker on every path (the markers set the section, they do not toggle it)", 2)
 	if f := c.fn("R14.S", load.ParsePkg, "", "ParseSchema"); f != nil {
 		// the guard that routes a definition: the If whose true edge dominates the append to methods
